@@ -20,29 +20,43 @@ type group struct {
 	Flag string // "-a" ... ; "" for a stray word
 	Arg  string
 	Bare bool // flag without argument (-D, --)
+	// Form: the other spellings Go's flag package accepts for the same flag and argument:
+	// 0 "-f arg", 1 "-f=arg", 2 "--f arg", 3 "--f=arg"; for the boolean -D, Arg (when set) is an
+	// explicit value: "-D=false" - the flag is still ON THE LINE and takes part in every rule about -D
+	Form int
 }
 
 func (g group) tokens() []string {
 	if g.Flag == "" {
 		return []string{g.Arg}
 	}
-	if g.Bare {
-		return []string{g.Flag}
+	f := g.Flag
+	if g.Form >= 2 && f != "--" {
+		f = "-" + f
 	}
-	return []string{g.Flag, g.Arg}
+	if g.Bare {
+		if g.Arg != "" {
+			return []string{f + "=" + g.Arg}
+		}
+		return []string{f}
+	}
+	if g.Form == 1 || g.Form == 3 {
+		return []string{f + "=" + g.Arg}
+	}
+	return []string{f, g.Arg}
 }
 
 var groupMenu = []group{
-	{"-a", "always,exit", false}, {"-a", "exit,always", false}, {"-a", "never,task", false}, {"-a", "always", false}, {"-a", "bogus,exit", false}, {"-a", "always, exit", false}, {"-a", "task", false},
-	{"-A", "always,exit", false}, {"-A", "never,user", false},
-	{"-a", "task,exit,always", false}, {"-a", "exit,always,never", false}, {"-A", "user, exclude, always", false}, {"-a", "always,exit,", false}, {"-a", "exit,exit", false}, {"-a", "always,never", false}, {"-a", ",always,exit", false},
-	{"-F", "uid=0", false}, {"-F", "path=/tmp/my file", false}, {"-F", "key=a=b", false}, {"-F", "a0&=5", false}, {"-F", "auid>=1000", false}, {"-F", "!!uid=0", false}, {"-F", "uid =0", false}, {"-F", "nofilter", false}, {"-F", "=5", false}, {"-F", "a b=c", false}, {"-F", "uid=0 gid=0", false}, {"-F", "exit!=-EPERM", false}, {"-F", "uid=", false},
-	{"-C", "uid!=euid", false}, {"-C", "uid=euid junk", false}, {"-C", "uid>=euid", false}, {"-C", "uid=euid,gid", false}, {"-C", "xx uid=euid", false}, {"-C", "uid=euid", false},
-	{"-S", "open", false}, {"-S", "open,close", false}, {"-S", "5", false}, {"-S", "all", false}, {"-S", "open close", false},
-	{"-k", "k1", false}, {"-k", "a,b", false}, {"-k", "k 1", false},
-	{"-p", "r", false}, {"-p", "wa", false}, {"-p", "rq", false},
-	{"-w", "/etc/passwd", false}, {"-w", "/tmp/my file", false},
-	{"-D", "", true}, {"", "stray", false}, {"--", "", true}, {"", "/trailing/word", false},
+	{"-a", "always,exit", false, 0}, {"-a", "exit,always", false, 0}, {"-a", "never,task", false, 0}, {"-a", "always", false, 0}, {"-a", "bogus,exit", false, 0}, {"-a", "always, exit", false, 0}, {"-a", "task", false, 0},
+	{"-A", "always,exit", false, 0}, {"-A", "never,user", false, 0},
+	{"-a", "task,exit,always", false, 0}, {"-a", "exit,always,never", false, 0}, {"-A", "user, exclude, always", false, 0}, {"-a", "always,exit,", false, 0}, {"-a", "exit,exit", false, 0}, {"-a", "always,never", false, 0}, {"-a", ",always,exit", false, 0},
+	{"-F", "uid=0", false, 0}, {"-F", "path=/tmp/my file", false, 0}, {"-F", "key=a=b", false, 0}, {"-F", "a0&=5", false, 0}, {"-F", "auid>=1000", false, 0}, {"-F", "!!uid=0", false, 0}, {"-F", "uid =0", false, 0}, {"-F", "nofilter", false, 0}, {"-F", "=5", false, 0}, {"-F", "a b=c", false, 0}, {"-F", "uid=0 gid=0", false, 0}, {"-F", "exit!=-EPERM", false, 0}, {"-F", "uid=", false, 0},
+	{"-C", "uid!=euid", false, 0}, {"-C", "uid=euid junk", false, 0}, {"-C", "uid>=euid", false, 0}, {"-C", "uid=euid,gid", false, 0}, {"-C", "xx uid=euid", false, 0}, {"-C", "uid=euid", false, 0},
+	{"-S", "open", false, 0}, {"-S", "open,close", false, 0}, {"-S", "5", false, 0}, {"-S", "all", false, 0}, {"-S", "open close", false, 0},
+	{"-k", "k1", false, 0}, {"-k", "a,b", false, 0}, {"-k", "k 1", false, 0},
+	{"-p", "r", false, 0}, {"-p", "wa", false, 0}, {"-p", "rq", false, 0},
+	{"-w", "/etc/passwd", false, 0}, {"-w", "/tmp/my file", false, 0},
+	{"-D", "", true, 0}, {"", "stray", false, 0}, {"--", "", true, 0}, {"", "/trailing/word", false, 0},
 }
 
 var ops14 = []string{"<=", ">=", "&=", "!=", "=", "<", ">", "&"}
@@ -346,18 +360,18 @@ func c14Paths(c *enumx.Ctx) {
 	}
 	for _, p := range paths {
 		for _, form := range []string{"w", "path", "dir"} {
-			for _, extra := range [][]group{nil, {{"-k", "k1", false}}, {{"-p", "wa", false}}} {
+			for _, extra := range [][]group{nil, {{"-k", "k1", false, 0}}, {{"-p", "wa", false, 0}}} {
 				if !c.Mine() {
 					continue
 				}
 				var gs []group
 				switch form {
 				case "w":
-					gs = []group{{"-w", p, false}}
+					gs = []group{{"-w", p, false, 0}}
 				case "path":
-					gs = []group{{"-a", "always,exit", false}, {"-F", "path=" + p, false}}
+					gs = []group{{"-a", "always,exit", false, 0}, {"-F", "path=" + p, false, 0}}
 				default:
-					gs = []group{{"-a", "always,exit", false}, {"-F", "dir=" + p, false}}
+					gs = []group{{"-a", "always,exit", false, 0}, {"-F", "dir=" + p, false, 0}}
 				}
 				if form != "w" && len(extra) > 0 && extra[0].Flag == "-p" {
 					continue
@@ -366,6 +380,78 @@ func c14Paths(c *enumx.Ctx) {
 			}
 		}
 	}
+}
+
+// c14Syntax: every spelling the flag package accepts ("-f arg", "-f=arg", "--f arg", "--f=arg",
+// booleans with an explicit value) for a smaller menu, all sequences of <=3 groups: the rules about
+// mixing and about reflecting every argument do not depend on how a flag is spelt.
+func c14Syntax(c *enumx.Ctx) {
+	base := []group{{Flag: "-a", Arg: "always,exit"}, {Flag: "-A", Arg: "never,user"}, {Flag: "-F", Arg: "uid=0"}, {Flag: "-F", Arg: "key=a=b"}, {Flag: "-C", Arg: "uid!=euid"},
+		{Flag: "-S", Arg: "open"}, {Flag: "-k", Arg: "k1"}, {Flag: "-p", Arg: "wa"}, {Flag: "-w", Arg: "/etc/passwd"}}
+	var menu []group
+	for _, g := range base {
+		for form := 0; form < 4; form++ {
+			g.Form = form
+			menu = append(menu, g)
+		}
+	}
+	for _, v := range []string{"", "true", "false", "0", "1", "t", "F", "FALSE"} {
+		menu = append(menu, group{Flag: "-D", Bare: true, Arg: v}, group{Flag: "-D", Bare: true, Arg: v, Form: 2})
+	}
+	var rec func(cur []group)
+	rec = func(cur []group) {
+		if len(cur) > 0 && c.Mine() {
+			checkLine(c, cur)
+		}
+		if len(cur) == 3 {
+			return
+		}
+		for _, g := range menu {
+			rec(append(append([]group{}, cur...), g))
+		}
+	}
+	rec(nil)
+	c.Sample("-D=false -w /etc/passwd -p wa => rejected: a -D argument is on the line (mixing), whatever value it carries")
+}
+
+// c14Runes: every fragment of the shared multi-byte menu (Unicode white space, BOM / zero-width
+// characters, malformed UTF-8 ...) inside each kind of argument, single-quoted by the harness:
+// the parsed rule holds the complete text, nothing is stripped or "normalised".
+func c14Runes(c *enumx.Ctx) {
+	for _, r := range enumx.HostileRunes {
+		if strings.Contains(r, "\x00") {
+			continue // a NUL cannot be written on a command line
+		}
+		for _, pos := range []int{0, 1, 2} {
+			put := func(a, b string) string {
+				switch pos {
+				case 0:
+					return r + a + b
+				case 1:
+					return a + r + b
+				}
+				return a + b + r
+			}
+			lines := [][]group{
+				{{Flag: "-w", Arg: put("/srv/share/", "reports")}, {Flag: "-p", Arg: "wa"}, {Flag: "-k", Arg: "k"}},
+				{{Flag: "-w", Arg: "/etc/passwd"}, {Flag: "-k", Arg: put("ma", "il")}},
+				{{Flag: "-a", Arg: "always,exit"}, {Flag: "-F", Arg: "path=" + put("/data/in", "box")}},
+				{{Flag: "-a", Arg: "always,exit"}, {Flag: "-F", Arg: put("pa", "th") + "=/x"}},
+				{{Flag: "-a", Arg: "always,exit"}, {Flag: "-C", Arg: "auid!=" + put("u", "id")}},
+				{{Flag: "-a", Arg: "always,exit"}, {Flag: "-S", Arg: put("op", "en")}, {Flag: "-F", Arg: "key=" + put("a", "b")}},
+				{{Flag: "-a", Arg: put("always,", "exit")}, {Flag: "-S", Arg: "open"}},
+				{{Flag: "-D"}, {Flag: "-k", Arg: put("k", "1")}},
+			}
+			lines[7][0].Bare = true
+			for _, gs := range lines {
+				if !c.Mine() {
+					continue
+				}
+				checkLine(c, gs)
+			}
+		}
+	}
+	c.Sample("-w '/srv/share/<U+FEFF>reports' -p wa => Path keeps the three bytes EF BB BF")
 }
 
 func c14Lines(c *enumx.Ctx) {
@@ -392,4 +478,6 @@ func c14Lines(c *enumx.Ctx) {
 func init() {
 	gens["c14-lines"] = c14Lines
 	gens["c14-paths"] = c14Paths
+	gens["c14-syntax"] = c14Syntax
+	gens["c14-runes"] = c14Runes
 }
